@@ -1,0 +1,21 @@
+//go:build verif
+
+package cert
+
+import "crypto/tls"
+
+// Read-only exports for the verification harness (property C11): the two steps
+// of TLSConfig's GetCertificate - load the store, compute on what was loaded -
+// as separate calls, so that a schedule of set replacements and handshake steps
+// can be replayed on the real Store.
+
+// VerifSnapshot is the value a handshake loaded from the store.
+type VerifSnapshot struct{ cs certstore }
+
+// VerifStoreLoad is the store.certstore() of GetCertificate.
+func VerifStoreLoad(s *Store) VerifSnapshot { return VerifSnapshot{cs: s.certstore()} }
+
+// VerifPickOn is the getCertificate of GetCertificate on a loaded value.
+func VerifPickOn(v VerifSnapshot, serverName string, strict bool) (*tls.Certificate, error) {
+	return getCertificate(v.cs, &tls.ClientHelloInfo{ServerName: serverName}, strict)
+}
